@@ -126,6 +126,10 @@ def run_unit(u):
     ob.witness("inputs", assum + dist + [M[i] > 0 for i in range(N)], replay=wit)
     return rep
 
+def dcrit_val(u, i):
+    """distinct concrete switching radii; 'dec' makes the lower-indexed particle the larger one"""
+    return float(1 + i) if u.get('dcrit', 'inc') == 'inc' else float(1 + u['N'] - i)
+
 def run_split(I, sim, u, dom):
     """MERCURIUS / TRACE: run both parts of the splitting with every particle in the encounter set; return the sum."""
     N = u['N']
@@ -133,7 +137,7 @@ def run_split(I, sim, u, dom):
         sub = 'ri_mercurius'
         sim.set('integrator', sim.enum('REB_INTEGRATOR_MERCURIUS'))
         dcrit = I.mem.alloc(8 * N, 'dcrit', 'heap')
-        for i in range(N): I.mem.store(Ptr(dcrit.obj, 8 * i), F64, dom.const(float(1 + i)))
+        for i in range(N): I.mem.store(Ptr(dcrit.obj, 8 * i), F64, dom.const(dcrit_val(u, i)))
         sim.set(sub + '.dcrit', dcrit)
         Lf = dom.fn('L', 2)
         def Lstub(I_, r, d, dc):
@@ -148,10 +152,11 @@ def run_split(I, sim, u, dom):
         for a, b in u['Ks']:
             I.mem.store(Ptr(ks.obj, 4 * (a * N + b)), I32, 1)
         sim.set(sub + '.current_Ks', ks)
+    em = u.get('emap') or list(range(N))
     emap = I.mem.alloc(4 * N, 'encounter_map', 'heap')
-    for i in range(N): I.mem.store(Ptr(emap.obj, 4 * i), I32, i)
+    for i, v_ in enumerate(em): I.mem.store(Ptr(emap.obj, 4 * i), I32, v_)
     sim.set(sub + '.encounter_map', emap)
-    sim.set(sub + '.encounter_N', N); sim.set(sub + '.encounter_N_active', u['na'])
+    sim.set(sub + '.encounter_N', len(em)); sim.set(sub + '.encounter_N_active', sum(1 for v_ in em if v_ < u['na']))
     out = []
     for mode in (0, 1):
         sim.set(sub + '.mode', mode)
@@ -162,18 +167,26 @@ def run_split(I, sim, u, dom):
     return [[dom.z(out[0][i][k]) + dom.z(out[1][i][k]) for k in range(3)] for i in range(N)]
 
 def oracle_helio(dom, u, X, M, G, soft, i, k):
-    """heliocentric splitting: interaction part + Kepler part = star term (for i>=1) + all planet-planet terms; star itself gets nothing"""
+    """heliocentric splitting: interaction part + encounter part = star term (for encounter particles) + planet-planet terms,
+    where a pair that is not (both) in the encounter set only carries the weight L of the interaction part; the star gets nothing"""
     if i == 0: return 0
     N = u['N']; tot = 0
+    E = set(u.get('emap') or range(N))
     for j in range(N):
         if j == i: continue
+        w = None
         if j == 0:
+            if i not in E: continue
             d = X[i]
         else:
             if not included(i, j, u['na'], u['tpt'], 0): continue
             d = [X[i][q] - X[j][q] for q in range(3)]
         r = dom.libm('sqrt', [d[0] * d[0] + d[1] * d[1] + d[2] * d[2] + soft * soft])
-        tot = tot - dom.fdiv(G * M[j] * d[k], r * r * r)
+        term = dom.fdiv(G * M[j] * d[k], r * r * r)
+        if j != 0 and not (i in E and j in E):
+            if u['gravity'] != 'MERCURIUS': raise ValueError("partial encounter sets are only modelled for MERCURIUS")
+            term = dom.fn('L', 2)(dom.z(r), dom.z(dom.const(max(dcrit_val(u, i), dcrit_val(u, j))))) * term
+        tot = tot - term
     return tot
 
 def native_split(ns, u, vals, i, k):
@@ -184,7 +197,7 @@ def native_split(ns, u, vals, i, k):
     if u['gravity'] == 'MERCURIUS':
         sub = 'ri_mercurius'
         ns.set('integrator', L.enumerators['REB_INTEGRATOR_MERCURIUS'])
-        dcrit = (ctypes.c_double * N)(*[float(1 + n) for n in range(N)]); keep.append(dcrit)
+        dcrit = (ctypes.c_double * N)(*[dcrit_val(u, n) for n in range(N)]); keep.append(dcrit)
         ns.set(sub + '.dcrit', ctypes.addressof(dcrit))
         ns.set(sub + '.L', ctypes.cast(_native.lib.reb_integrator_mercurius_L_mercury, ctypes.c_void_p).value)
     else:
@@ -193,9 +206,10 @@ def native_split(ns, u, vals, i, k):
         ks = (ctypes.c_int * (N * N))(); keep.append(ks)
         for a, b in u['Ks']: ks[a * N + b] = 1
         ns.set(sub + '.current_Ks', ctypes.addressof(ks))
-    emap = (ctypes.c_int * N)(*range(N)); keep.append(emap)
+    em = u.get('emap') or list(range(N))
+    emap = (ctypes.c_int * N)(*em); keep.append(emap)
     ns.set(sub + '.encounter_map', ctypes.addressof(emap))
-    ns.set(sub + '.encounter_N', N); ns.set(sub + '.encounter_N_active', u['na'])
+    ns.set(sub + '.encounter_N', len(em)); ns.set(sub + '.encounter_N_active', sum(1 for v_ in em if v_ < u['na']))
     tot = [[0.0] * 3 for _ in range(N)]
     for mode in (0, 1):
         ns.set(sub + '.mode', mode)
@@ -211,16 +225,22 @@ def native_split(ns, u, vals, i, k):
     decimal.getcontext().prec = 60
     D = decimal.Decimal
     want = D(0); scale = D(0)
+    E = set(em)
+    lmerc = lib_L = _native.lib.reb_integrator_mercurius_L_mercury; lib_L.restype = ctypes.c_double; lib_L.argtypes = [ctypes.c_void_p, ctypes.c_double, ctypes.c_double]
     if i > 0:
         for j in range(N):
             if j == i: continue
-            if j == 0: d = [D(vals['x%d_%d' % (i, q)]) for q in range(3)]
+            if j == 0:
+                if i not in E: continue
+                d = [D(vals['x%d_%d' % (i, q)]) for q in range(3)]
             else:
                 if not included(i, j, u['na'], u['tpt'], 0): continue
                 d = [D(vals['x%d_%d' % (i, q)]) - D(vals['x%d_%d' % (j, q)]) for q in range(3)]
             r2 = d[0] * d[0] + d[1] * d[1] + d[2] * d[2] + D(vals['soft']) ** 2
             if r2 == 0: return False, "degenerate model (coincident particles)"
             term = D(vals['G']) * D(vals['m%d' % j]) * d[k] / (r2 * r2.sqrt())
+            if j != 0 and not (i in E and j in E):
+                term = term * D(lib_L(ns.addr, float(r2.sqrt()), max(dcrit_val(u, i), dcrit_val(u, j))))
             want -= term; scale += abs(term)
     got = D(tot[i][k])
     if got != got: return False, "native NaN"
@@ -314,6 +334,14 @@ def units(tier):
             for tpt in (0, 1):
                 if na == N and tpt: continue
                 us.append(dict(gravity='MERCURIUS', N=N, na=na, tpt=tpt, git=0, ghost=None))
+                us.append(dict(gravity='MERCURIUS', N=N, na=na, tpt=tpt, git=0, ghost=None, dcrit='dec'))
+                if N >= 4:
+                    # partial encounter sets (sub-permutations of the particle indices: active ones first, star always first)
+                    for em in ([0, 2, 3], [0, 1, 3], [0, 3], [0, 2], [0, 3, 2] if na <= 2 else [0, 2, 1]):
+                        act = [v_ for v_ in em if v_ < na]; tp = [v_ for v_ in em if v_ >= na]
+                        if em != act + tp or max(em) >= N: continue
+                        for dc in ('inc', 'dec'):
+                            us.append(dict(gravity='MERCURIUS', N=N, na=na, tpt=tpt, git=0, ghost=None, emap=em, dcrit=dc))
                 pairs = [(a, b) for b in range(1, N) for a in range(1, b)]
                 kss = [[]] + [[p] for p in pairs] + ([list(pairs)] if len(pairs) > 1 else [])
                 if tier == 'thorough' and len(pairs) <= 6:
